@@ -43,13 +43,23 @@ class RandomVectorizedStrategy(vb.VectorizedStrategy[None]):
         empty_features.categorical.shape[-1],
     )
 
+    n_feature_dimensions = types.ContinuousAndCategorical(
+        len(converter.output_specs.continuous),
+        len(converter.output_specs.categorical),
+    )
+
     categorical_sizes = []
     for spec in converter.output_specs.categorical:
       categorical_sizes.append(spec.bounds[1])
+    # Padded categorical features have the single category 0.
+    categorical_sizes += [1] * (
+        n_feature_dimensions_with_padding.categorical
+        - n_feature_dimensions.categorical
+    )
 
     self._suggestion_batch_size = suggestion_batch_size
     self.n_feature_dimensions_with_padding = n_feature_dimensions_with_padding
-    self.n_feature_dimensions = n_feature_dimensions_with_padding
+    self.n_feature_dimensions = n_feature_dimensions
     self.dtype = types.ContinuousAndCategorical(jnp.float64, types.INT_DTYPE)
 
     self._categorical_logits = None
